@@ -381,6 +381,10 @@ func init() {
 			r.Stats.Extra["bit_flips"] += o.Flips
 			r.Stats.Extra["truncations"] += o.Truncations
 			r.Stats.Extra["high_size_bit_flips_skipped_in_quick_tier"] += o.SkippedHighSizeFlips
+			if o.SkippedHighSizeFlips > 0 && r.Stats.Exhaustive {
+				r.Stats.Exhaustive = false
+				r.Stats.CapsHit = append(r.Stats.CapsHit, "quick tier: flips in the top byte of a size field are applied to every 8th record only (each costs a 16 MB..2 GB allocation in the decoder); thorough applies all")
+			}
 			r.Stats.Extra["rejected"] += o.Rejected
 			r.Stats.Extra["treated_as_absent"] += o.Absent
 			for k := 0; k < o.Records; k++ {
